@@ -639,6 +639,10 @@ func genExtHeaders(c *Ctx) {
 		}
 		c.encDecP("p.RoutingHeader", tRt(6, hel, 2, 1, tBuf(protoSeqBytes(n, 0x31))))
 	}
+	// routing headers whose data fills 256 bytes and more exactly (type-0 / segment routing with 16+ addresses)
+	for _, hel := range []int{31, 32, 33, 62, 63, 64, 100, 254, 255} {
+		c.encDecP("p.RoutingHeader", tRt(6, hel, 0, hel/2, tBuf(protoSeqBytes(8*(hel+1)-4, 0x11))))
+	}
 	c.run("enc", tRt(6, 0, 0, 0, "~"))
 	c.run("enc", tRt(6, 255, 0, 0, tBuf(nil)))
 	c.run("enc", tRt(6, 254, 3, 4, tBuf(protoSeqBytes(5, 1))))
